@@ -52,6 +52,9 @@ BQ_TWO = [
   bsc(2, 2, 0, (PUSH, N), (BPOP, POP)),
   bsc(2, 1, 0, (PUSH, PUSH), (BPOP, N)),
 ]
+# try_push's CAS retry: X reads ticket/head, Y pops the only item and pushes a new one (taking X's ticket), X's CAS fails and it must re-evaluate
+# the fullness test with a fresh head: the queue never held 2 items, so try_push must succeed. REQ_RETRY_A: the witness run must contain a failed CAS of X.
+BQ_RETRY = [dict(bsc(2, 1, 0, (TRYPUSH, N), (POP, PUSH)), REQ_RETRY_A=1), dict(bsc(2, 1, 0, (TRYPUSH, N), (POP, TRYPUSH)), REQ_RETRY_A=1)]
 def _completable(scn):
     """abstract sanity check of a bounded-queue scenario (operations atomic): no reachable state in which an unfinished thread can never
     proceed. A scenario that fails it would make a legitimately sleeping caller look like a lost wake-up (two early scenarios did)."""
@@ -73,7 +76,7 @@ def _completable(scn):
             moved = True; npc = list(pcs); npc[t] += 1; stack.append((tuple(npc), nsz))
         if not moved and any(pcs[t] < len(thr[t]) for t in range(3)): return False
     return True
-for _s in BQ_ONE + BQ_TWO: assert _completable(_s), 'bounded-queue scenario can block legitimately: %r' % _s
+for _s in BQ_ONE + BQ_TWO + BQ_RETRY: assert _completable(_s), 'bounded-queue scenario can block legitimately: %r' % _s
 DESC = ('2-3 threads x <=2 operations (push / try_pop) after a sequential pre-state; complete linearizability check of the invocation/response '
         'history against a FIFO queue, final drain, lane invariants, page accounting, cbmc memory safety (use after free of pages), lost hand-off (blocked-state oracle)')
 IMMB = [r'S_class_tbb__detail__d2__concurrent_bounded_queue\*\)v_\w+\)\)\.f[34]$']   # my_queue_representation, my_monitors
@@ -130,7 +133,7 @@ HARNESSES = [
        desc='concurrent_queue<136-byte struct>, 3 threads x 1 operation: ' + DESC,
        bounds={'threads': 3, 'ops_per_thread': 1, 'free_rounds': 2, 'forced_rounds': 2, 'spin_unroll': 1}),
   dict(name='bq_big_2t', unit='bqm1_2', harness='h_cq.c', defines={'NT': 2, 'ITEMS_PER_PAGE': 1, 'BOUNDED': 1, 'REALCPP': 2},
-       scenarios_quick=R(1, BQ_ONE[:2]) + R(2, BQ_ONE[2:3] + BQ_ONE[4:]), scenarios_thorough=R(2, BQ_ONE[:2]) + R(3, BQ_ONE[2:]) + R(2, BQ_TWO),
+       scenarios_quick=R(1, BQ_ONE[:2]) + R(2, BQ_ONE[2:3] + BQ_ONE[4:]) + R(2, BQ_RETRY[1:]), scenarios_thorough=R(2, BQ_ONE[:2]) + R(3, BQ_ONE[2:]) + R(2, BQ_TWO) + R(3, BQ_RETRY),
        cbmc=CB, timeout=1500, mem_gb=8, thorough_override={'timeout': 5400}, native_cflags=NCF,
        desc='concurrent_bounded_queue<136-byte struct>, capacity 1-2 (header code real; the r1:: monitor entry points are contract stubs with sleeper bookkeeping): '
             'push/pop (blocking), try_push, try_pop; linearizability against a BOUNDED FIFO queue (a push takes effect only when size < capacity, try_push fails only when full), '
